@@ -778,6 +778,12 @@ pub fn generate(name: &str, rng: &mut Rng, n: usize, tier: &str) -> Vec<String> 
             for h in ["ffff85010203040585010203040580", "ff86666f6f626172ff86666f6f62617280"] {
                 push("SER", format!("br - {}", h));
             }
+            let sweep = breakeven_trees();
+            // quick: every third tree of the sweep (all distances for one shape each), thorough: all
+            let sweep: Vec<T> = if tier == "thorough" { sweep } else { sweep.into_iter().enumerate().filter(|(i, _)| i % 3 == (i / 3) % 3).map(|(_, t)| t).collect() };
+            for t in &sweep {
+                push("SER", format!("br - {}", trees::to_hex(t)));
+            }
             for _ in 0..n {
                 let big = tier == "thorough" && rng.chance(1, 10);
                 let t = match rng.below(6) {
@@ -836,14 +842,58 @@ fn short(b: &[u8]) -> String {
 }
 
 /// C17 on the implementation alone
+/// break-even sweep for "a back-reference is used only when it is shorter": a node X of every small
+/// serialized size repeated at every distance 0..=80 (the path to the earlier copy grows by one bit
+/// per step, i.e. by one byte every 8 steps), as the tail of an improper list, as the last element
+/// of a proper list, and one level down
+pub fn breakeven_trees() -> Vec<T> {
+    let mut out = vec![];
+    let mut xs: Vec<T> = (1..=8usize).map(|l| T::Atom((0..l).map(|i| 0x81 + i as u8).collect())).collect();
+    xs.push(T::pair(T::Atom(vec![0x90, 0x91]), T::nil()));
+    xs.push(T::pair(T::Atom(vec![0x92]), T::Atom(vec![0x93, 0x94, 0x95])));
+    for x in &xs {
+        for gap in 0..=80usize {
+            let items: Vec<T> = (0..gap).map(|i| T::Atom(vec![1 + i as u8])).collect();
+            for shape in 0..3 {
+                let mut v = vec![x.clone()];
+                v.extend(items.iter().cloned());
+                let t = match shape {
+                    0 => {
+                        let mut r = x.clone();
+                        for a in v.into_iter().rev() {
+                            r = T::pair(a, r);
+                        }
+                        r
+                    }
+                    1 => {
+                        v.push(x.clone());
+                        T::list(v)
+                    }
+                    _ => {
+                        v.push(T::pair(T::Atom(vec![0x7f]), x.clone()));
+                        T::list(v)
+                    }
+                };
+                out.push(t);
+            }
+        }
+    }
+    out
+}
+
 fn oracle_c17(rng: &mut Rng, n: usize, tier: &str) -> OracleReport {
     let mut rep = OracleReport::default();
     let mut seen = std::collections::HashSet::new();
-    for i in 0..n {
+    let sweep = breakeven_trees();
+    for i in 0..n + sweep.len() {
         let big = tier == "thorough" && i % 7 == 0;
-        let t = match rng.below(6) {
-            0 => trees::random_tree(rng, 60, 60),
-            _ => repetitive_tree(rng, if big { 400 } else { 60 }),
+        let t = if i < sweep.len() {
+            sweep[i].clone()
+        } else {
+            match rng.below(6) {
+                0 => trees::random_tree(rng, 60, 60),
+                _ => repetitive_tree(rng, if big { 400 } else { 60 }),
+            }
         };
         rep.evaluations += 1;
         let classic = trees::encode(&t);
